@@ -76,6 +76,17 @@ def encode(rng, wbits, total, delta=False, ref=b'', e8=False, reset_interval=0, 
     """returns (stream bytes, plaintext before E8 postprocessing is irrelevant: we only diff decoders)"""
     wsize=1<<wbits; nslots=SLOTS[wbits-15]; nmain=256+nslots*8
     bw=BitW(); data=bytearray(); R=[1,1,1]
+    # Intel E8 translation leaves the last 10 bytes of a frame alone: put CALL opcodes with small operands right around that limit
+    forced={}
+    if e8:
+        import struct as _st
+        ends=[fe_ for fe_ in range(32768,total+1,32768)]+([total] if total%32768 else [])
+        for fe_ in ends:
+            base=fe_-rng.choice([10,10,10,11,9,12,14])
+            if base<0 or base+5>total or any((base+k) in forced for k in range(-5,6)): continue
+            forced[base]=0xE8
+            for k,bv in enumerate(_st.pack('<i',rng.choice([0,1,-1,5,100,-base,rng.randrange(-70000,70000)]))): forced[base+1+k]=bv
+    fpos=sorted(forced)
     main_old=[0]*(2576+64); len_old=[0]*(250+64)
     pos=0; header_done=False
     blocks_left=0; btype=0; cur=None
@@ -107,6 +118,10 @@ def encode(rng, wbits, total, delta=False, ref=b'', e8=False, reset_interval=0, 
                 fe=(p//32768+1)*32768; lim=min(bend,fe,total)
                 maxoff=min(p+len(ref) if delta else p-rb, wsize-3)
                 if early and p<6: maxoff=min(maxoff+rng.choice([1,2]), wsize-3)     # hostile: a match reaching before the first byte of the stream
+                if p in forced:
+                    toks.append(('L',forced[p])); p+=1; continue
+                nf=next((q for q in fpos if q>p), None)
+                if nf is not None: lim=min(lim,nf)
                 if maxoff>=1 and lim-p>=2 and rng.random()<match_p:
                     ml=rng.randint(2,min(257,lim-p)) if rng.random()<0.8 else min(257,lim-p)
                     mode=rng.random()
@@ -132,7 +147,10 @@ def encode(rng, wbits, total, delta=False, ref=b'', e8=False, reset_interval=0, 
             import struct
             R=[rng.choice([1,2,5,100]) for _ in range(3)]
             bw.raw(struct.pack('<III',*R))
-            chunk=bytes(rng.randrange(256) for _ in range(bsize))
+            chunk=bytearray(rng.randrange(256) for _ in range(bsize))
+            for q in fpos:
+                if pos<=q<pos+bsize: chunk[q-pos]=forced[q]
+            chunk=bytes(chunk)
             # raw copy: crosses frames freely, but frame realign requires bits empty (they are)
             if cuts is not None:
                 fb=(pos//32768+1)*32768
